@@ -675,3 +675,57 @@ def perturb_params(rng, recipe: dict, meta: dict, base: dict, sparsity: float = 
         else:
             out[lf[0]][lf[1]] = fresh[lf[0]][lf[1]]
     return out
+
+
+def sibling_recipe(rng, recipe: dict, name: str) -> dict:
+    """A variant of ``recipe`` as a user would write it when comparing specifications in one
+    session: same variable and function names, one thing changed."""
+    import copy
+
+    r = copy.deepcopy(recipe)
+    r["name"] = name
+    opts = ["coef", "periods", "func_order"]
+    if r["cstate"]:
+        opts += ["a_scale", "a_scale", "a_scale", "a_scale", "a_n"]
+    if any(c["name"] == "e" for c in r["cchoices"]):
+        opts.append("e_n")
+    if r["filter"]:
+        opts.append("filter_step")
+    what = rng.choice(opts)
+    if what == "coef":
+        k = rng.choice(sorted(r["coef"]))
+        r["coef"][k] = r["coef"][k] * rng.uniform(0.5, 1.5) + 0.01
+    elif what == "periods":
+        r["n_periods"] = max(1, r["n_periods"] + rng.choice([-1, 1]))
+        # dependency on the period only makes sense with more than one period
+        if r["n_periods"] == 1:
+            for d in r["dstates"]:
+                if d["trans"]["kind"] == "stoch" and "_period" in d["trans"]["deps"] and len(d["trans"]["deps"]) > 1:
+                    d["trans"]["deps"] = [x for x in d["trans"]["deps"] if x != "_period"]
+        if r["filter"]:
+            r["filter"]["from_period"] = min(r["filter"]["from_period"], max(1, r["n_periods"] - 1))
+            if r["filter"].get("gate_from") is not None:
+                r["filter"]["gate_from"] = min(r["filter"]["gate_from"], max(1, r["n_periods"] - 1))
+    elif what == "func_order":
+        r["func_shuffle"] = rng.randint(0, 10**6)
+    elif what == "a_scale":
+        cs = r["cstate"]
+        cs["scale"] = "log" if cs["scale"] == "lin" else "lin"
+        for c in r["cchoices"]:
+            if c["name"] == "s" and cs["trans"] == "node":
+                c["scale"] = cs["scale"]
+    elif what == "a_n":
+        cs = r["cstate"]
+        cs["n"] = cs["n"] + 1 if cs["n"] < 7 else cs["n"] - 1
+        for c in r["cchoices"]:
+            if c["name"] == "s" and cs["trans"] == "node":
+                c["n"] = cs["n"]
+    elif what == "e_n":
+        for c in r["cchoices"]:
+            if c["name"] == "e":
+                c["n"] = c["n"] + 1
+    elif what == "filter_step":
+        r["filter"]["step"] = 1 if r["filter"].get("step", 1) != 1 else 2
+    r["sibling_of"] = recipe["name"]
+    r["sibling_change"] = what
+    return r
